@@ -817,6 +817,10 @@ class RefMachine(object):
         elif op == "inskip":
             n = self.pop()
             nxt = self.pos[node[1]] + n
+            if not (-(1 << 63) <= nxt < (1 << 63)):
+                # position + count is computed in int64 by the C++ (signed overflow; the sanitizer build aborts)
+                self.hazards.add("skip-overflow")
+                self.hazard_at = "inskip"
             if nxt < 0 or nxt > len(self.inputs[node[1]]):
                 raise Fault(E["skip_beyond"])
             self.pos[node[1]] = nxt
@@ -1056,6 +1060,10 @@ class RefMachine(object):
             assert taken == nbytes
             return
         npfmt, size = FORMATS[fmt]
+        if size > 1 and self.pos[k] % size != 0:
+            # fine on x86, but a misaligned load in C++ (the sanitizer build aborts)
+            self.hazards.add("misaligned-read")
+            self.hazard_at = self.last_tag
         total = n * size
         if self.pos[k] + total > len(data):
             raise Fault(E["read_beyond"])
